@@ -1,3 +1,74 @@
-From ZV Require Import Lib.Base Model.Stream.
-Theorem C25_placeholder : True. Proof. exact I. Qed.
-Print Assumptions C25_placeholder.
+(** C25 — streaming delivers every file once and conserves statistics (model: Model/Stream.v).
+    [deliver maxsz evs] = the messages put on the gRPC stream when the shards produce the results [evs]
+    (samplingSender.Send for each, then Flush; every forwarded event through gRPCChunkSender / chunk.SendAll). *)
+From ZV Require Import Lib.Base Model.Stream Proofs.Stream.
+Open Scope Z_scope.
+
+(** every file match is delivered exactly once and in the order produced — for every event list *)
+Theorem C25_files_exactly_once_in_order : forall (maxsz : N) (evs : list event),
+  concat (map m_files (deliver maxsz evs)) = concat (map ev_files evs).
+Proof. exact deliver_files. Qed.
+Print Assumptions C25_files_exactly_once_in_order.
+
+(** for every counter (index i of the counter vector) the sum over the delivered messages equals the sum over
+    the produced results — for every event list whose counters are non-negative (Stats.Zero tests "> 0") *)
+Theorem C25_stats_conserved : forall (maxsz : N) (i : nat) (evs : list event),
+  Forall (fun e => Forall (fun x => 0 <= x) (st_cnt (ev_stats e))) evs ->
+  zsum (msg_cnt i) (deliver maxsz evs) = zsum (ev_cnt i) evs.
+Proof. exact deliver_cnt. Qed.
+Print Assumptions C25_stats_conserved.
+
+(** every message stays under the budget unless it carries a single file (or none) *)
+Theorem C25_chunk_budget : forall (maxsz : N) (evs : list event),
+  Forall (fun m => (fsize (m_files m) < maxsz)%N \/ (length (m_files m) <= 1)%nat) (deliver maxsz evs).
+Proof. exact deliver_budget. Qed.
+Print Assumptions C25_chunk_budget.
+
+(** flushes drain: the chunker hands over everything it was given (nothing stays buffered), and at any point
+    before samplingSender.Flush what has been delivered plus the pending aggregate is what was produced
+    (so the only thing Flush has to send, and does send, is that aggregate) — no sign assumption here *)
+Theorem C25_flush_drains : forall (maxsz : N),
+  (forall fs : list file, concat (chunks maxsz fs) = fs) /\
+  (forall (i : nat) (evs : list event),
+     zsum (msg_cnt i) (flat_map (grpc_send maxsz) (snd (sampler_run sampler0 evs)))
+     + cnt_at i (agg (fst (sampler_run sampler0 evs))) = zsum (ev_cnt i) evs) /\
+  (forall (i : nat) (s : sampler), Forall (fun x => 0 <= x) (st_cnt (agg s)) ->
+     zsum (ev_cnt i) (sampler_flush s) = cnt_at i (agg s)).
+Proof.
+  intros maxsz. split; [|split].
+  - intros fs. unfold chunks. rewrite chunk_go_concat. reflexivity.
+  - intros i evs. pose proof (pending_accounted maxsz i evs) as H.
+    destruct (sampler_run sampler0 evs) as [s out]. exact H.
+  - intros i s H. apply sampler_flush_cnt. exact H.
+Qed.
+Print Assumptions C25_flush_drains.
+
+(** the non-negativity hypothesis of C25_stats_conserved is needed: Stats.Zero treats a negative aggregate as empty *)
+Theorem C25_stats_conserved_needs_nonneg_refuted : exists (evs : list event),
+  zsum (msg_cnt 0) (deliver 1048576 evs) <> zsum (ev_cnt 0) evs.
+Proof. exists [mkev [] (mkstats [-5] 0 0%N) (Some 0) (Some 0)]. vm_compute. discriminate. Qed.
+Print Assumptions C25_stats_conserved_needs_nonneg_refuted.
+
+(** ---- non-vacuity *)
+Definition ex_ev_stats (k : Z) : event := mkev [] (mkstats [k; 1] 7 0%N) (Some 3) (Some 1).
+Definition ex_evs : list event :=
+  repeat (ex_ev_stats 2) 100 ++ [mkev [(1%N, 600000%N); (2%N, 600000%N); (3%N, 10%N)] (mkstats [5; 0] 9 2%N) (Some 4) (Some 2)]
+  ++ repeat (ex_ev_stats 1) 3.
+Example C25_ex_nonneg : Forall (fun e => Forall (fun x => 0 <= x) (st_cnt (ev_stats e))) ex_evs.
+Proof. repeat (constructor; [repeat (constructor; try (vm_compute; discriminate))|]). constructor. Qed.
+(** 100 stats-only events -> one sampled message; the file event is split in two chunks (stats on the first
+    only, MaxPendingPriority patched on the first); the trailing stats are sent by Flush with progress -Inf *)
+Example C25_ex_deliver :
+  map (fun m => (map fst (m_files m), option_map st_cnt (m_stats m), m_prio m, m_maxp m)) (deliver 1048576 ex_evs)
+  = [ ([], Some [200; 100], Some 3, Some 1);
+      ([1%N], Some [5; 0], Some 4, Some 4);
+      ([2%N; 3%N], None, Some 4, Some 2);
+      ([], Some [3; 3], None, None) ].
+Proof. vm_compute. reflexivity. Qed.
+Example C25_ex_sums : zsum (msg_cnt 0) (deliver 1048576 ex_evs) = 208 /\ zsum (ev_cnt 0) ex_evs = 208.
+Proof. vm_compute. split; reflexivity. Qed.
+(** a first file at/over the budget produces an empty first chunk that carries the stats *)
+Example C25_ex_huge_first :
+  map (fun m => (map fst (m_files m), option_map st_cnt (m_stats m))) (deliver 1048576 [mkev [(1%N, 1048576%N); (2%N, 5%N)] (mkstats [1] 0 0%N) (Some 0) (Some 0)])
+  = [([], Some [1]); ([1%N], None); ([2%N], None)].
+Proof. vm_compute. reflexivity. Qed.
